@@ -1459,6 +1459,10 @@ func elemKind(n *xnode) string {
 
 func mayBeFloat(n *xnode) bool {
 	switch n.k {
+	case xName:
+		if d, ok := c14AliasDefs[n.s]; ok && d.k != xName {
+			return mayBeFloat(d)
+		}
 	case xFloat:
 		return true
 	case xCall:
@@ -1473,6 +1477,11 @@ func mayBeFloat(n *xnode) bool {
 }
 
 func numberList(n *xnode) bool {
+	if n.k == xName {
+		if d, ok := c14AliasDefs[n.s]; ok && d.k != xName {
+			return numberList(d)
+		}
+	}
 	if n.k != xCall {
 		return false
 	}
